@@ -410,17 +410,24 @@ class Node:
         return sorted(n for n in os.listdir(self.cleanup_dir)
                       if not n.startswith('.'))
 
-    def cleanup_one(self, idx):
+    def cleanup_one(self, idx, partial=None):
         from treadmill import cleanup
         links = self.cleanup_links()
         if not links:
             return False
         name = links[idx % len(links)]
         fakes.reset_logs()
+        if partial is not None:
+            fakes._STATE['finish_partial'] = partial       # pylint: disable=protected-access
         try:
             cleanup.Cleanup(self.mgr.tm_env).invoke('linux', name)
+        except fakes.CleanupInterrupted:
+            self._count('cleanups_interrupted_half_way')
+            return 'interrupted'        # the job died; its supervisor retries it later
         except Exception as err:      # pylint: disable=broad-except
             raise HandlerError('Cleanup.invoke', err)
+        finally:
+            fakes._STATE.pop('finish_partial', None)       # pylint: disable=protected-access
         return True
 
     # -- restarts ---------------------------------------------------------
